@@ -965,7 +965,10 @@ func (r *SuRecord) PackSize2(hash *uint64, stack packStack) int {
 }
 
 func (r *SuRecord) Pack(hash *uint64, buf *pack.Encoder) {
-	r.ToObject().pack(hash, buf, PackRecord)
+	ob := r.ToObject()
+	ob.RLock()
+	defer ob.RUnlock()
+	ob.pack(hash, buf, PackRecord)
 }
 
 func UnpackRecord(s string) *SuRecord {
